@@ -13,7 +13,7 @@ import (
 func init() {
 	register("C19",
 		"nothing of note beyond AX-YEAR (years outside 0..9999 print wider) and the ranges of month/day/hour/minute/second, which R07.2 establishes at the only allocation site of Solar; a re-implementation of ToYmd/ToYmdHms that is not a single Sprintf is reported as undecided (fails) even if it is correct.",
-		r19_1, r19_2, r19_3, r19_4)
+		r19_1, r19_2, r19_3, r19_4, r17_1)
 }
 
 func r19_1(c *Ctx, r *Report) {
@@ -159,28 +159,58 @@ func r19_2(c *Ctx, r *Report) {
 		norm := strings.NewReplacer("<M:lunar>", "<M:own>", "<D:lunar>", "<D:own>").Replace(got)
 		r.check(norm == "<Y:own>年<M:own>月<D:own>", rule, name+" renders year 年 month 月 day", c.fnPos(fn), "the evaluator reads the result as: "+got)
 	}
-	// the year digits come from Sprintf("%d") of the year, one NUMBER entry per digit
+	// the year digits: every decimal digit of the year through NUMBER, most significant first — the functions
+	// are followed for a spread of years (their digit loop as a table over the iteration number)
 	for _, name := range []string{"calendar.(*Lunar).GetYearInChinese", "calendar.(*Tao).GetYearInChinese", "calendar.(*Foto).GetYearInChinese"} {
 		fn := c.Fn(r, rule, name)
-		if fn == nil {
+		if fn == nil || len(fn.Params) != 1 || len(num) < 10 {
 			continue
 		}
-		okk := false
-		for _, b := range fn.Blocks {
-			for _, ins := range b.Instrs {
-				if _, f, _, ok := sprintfCall(valueOf(ins)); ok && f == "%d" {
-					okk = true
+		var bad []string
+		n := 0
+		var years []int64
+		for y := int64(0); y <= 120; y++ {
+			years = append(years, y)
+		}
+		for _, base := range []int64{990, 1990, 2690, 4710, 9990, 10530, 12690} {
+			for d := int64(0); d <= 25; d++ {
+				years = append(years, base+d)
+			}
+		}
+		for _, y := range years {
+			if len(bad) >= 4 {
+				break
+			}
+			y := y
+			leaf := func(fr *evalFrame, v ssa.Value) (interface{}, bool) {
+				if rc, f, ok := getterField(c, v); ok && (f == "Lunar.year") {
+					if ofr, o := fr.origin(rc); ofr.parent == nil && o == ssa.Value(fn.Params[0]) {
+						return y, true
+					}
 				}
+				if call, ok := v.(*ssa.Call); ok && call.Common().StaticCallee() != nil && call.Common().StaticCallee().Name() == "GetYear" && len(call.Common().Args) == 1 {
+					if ofr, o := fr.origin(call.Common().Args[0]); ofr.parent == nil && o == ssa.Value(fn.Params[0]) {
+						return y, true
+					}
+				}
+				return nil, false
+			}
+			ev := &evaluator{leaf: leaf, inline: inlineLibrary, counted: 64}
+			res, outcome := ev.runCounted(fn, 64)
+			n++
+			want := ""
+			for _, ch := range fmt.Sprint(y) {
+				want += num[ch-'0']
+			}
+			got := outcome + " " + ev.fail
+			if outcome == "return" && len(res) == 1 {
+				got = fmt.Sprint(res[0])
+			}
+			if got != want {
+				bad = append(bad, fmt.Sprintf("year %d: %s, stated %s", y, got, want))
 			}
 		}
-		reads := false
-		for _, g := range c.eff.Of(fn).globalsRead() {
-			if g == "LunarUtil.NUMBER" {
-				reads = true
-			}
-		}
-		loops, _ := findLoops(fn)
-		r.check(okk && reads && len(loops) == 1, rule, name+" maps each decimal digit of the year through NUMBER", c.fnPos(fn), "Sprintf(\"%d\", year), one loop over the digits, NUMBER[digit]; a year of 0 prints one digit")
+		r.check(len(bad) == 0 && n > 0, rule, name+" maps each decimal digit of the year through NUMBER", c.fnPos(fn), fmt.Sprintf("%d years; deviations: %v", n, headList(bad, 3)))
 	}
 	// month rendering: leap marker + MONTH[|month|]
 	if fn := c.Fn(r, rule, "calendar.(*Lunar).GetMonthInChinese"); fn != nil {
